@@ -7,16 +7,17 @@ evaluates the recorded runs against Converge.tla.
    cap^K <= tol), never gives up; deviation Stall must be found.
 2. Real stand-alone multigrid solves (sslsolver, semicoarsening and line
    relaxation off) on uniform grids of the SAME domain with 8, 16, 32 (and 64)
-   cells per direction, cycles F/V/W, homogeneous isotropic and triaxial
-   (1:2:3) media, frequency and Laplace domain, 1..3 pre/post smoothing steps:
+   cells per direction, cycles F/V/W, homogeneous isotropic, HTI (1:2), VTI
+   (1:3) and triaxial (1:2:3) media, frequency and Laplace domain, 1..3 pre/post smoothing steps:
    one trace per solve with one Cycle event per fine-grid cycle (factor from
    info['error_at_cycle'] below the cap of its medium and smoothing count) and
    the End event; TLC: EveryCycleContracts, BoundedCycles, MustConverge,
    NoGiveUp, HIndep (worst factor <= 1.5 x the one at 16^3 + 0.01, cycles <=
    cycles at 16^3 + 2).
 Caps = 1.5 x the worst per-cycle factor measured at 64^3 on the pinned tree
-(2026-09-24): isotropic 0.243 / 0.138 / 0.085, triaxial 0.456 / 0.211 / 0.115
-for nu = 1 / 2 / 3.
+(2026-09-24): isotropic 0.243 / 0.138 / 0.085, triaxial (1:2:3) 0.456 / 0.211
+/ 0.115, HTI (1:2) 0.425 / 0.195 / 0.106, VTI (1:3) 0.540 / 0.297 / 0.166 for
+nu = 1 / 2 / 3.
 """
 import itertools
 import json
@@ -28,7 +29,9 @@ import random
 from . import common as C
 
 MEASURED = {("iso", 1): 0.243, ("iso", 2): 0.138, ("iso", 3): 0.085,
-            ("tri", 1): 0.456, ("tri", 2): 0.211, ("tri", 3): 0.115}
+            ("tri", 1): 0.456, ("tri", 2): 0.211, ("tri", 3): 0.115,
+            ("hti", 1): 0.425, ("hti", 2): 0.195, ("hti", 3): 0.106,
+            ("vti", 1): 0.540, ("vti", 2): 0.297, ("vti", 3): 0.166}
 MARGIN = 1.5
 SLACK = 1.5
 TOL = 1e-6
@@ -54,6 +57,10 @@ def _solve(cfg):
     grid = emg3d.TensorMesh(h, [-a.sum()/2 for a in h])
     if medium == "iso":
         model = emg3d.Model(grid, 1.0, mapping='Resistivity')
+    elif medium == "hti":       # mildly anisotropic: 1:2 in y
+        model = emg3d.Model(grid, 1.0, property_y=2.0, mapping='Resistivity')
+    elif medium == "vti":       # 1:3 in z
+        model = emg3d.Model(grid, 1.0, property_z=3.0, mapping='Resistivity')
     else:
         model = emg3d.Model(grid, 1.0, 2.0, 3.0, mapping='Resistivity')
     sf = emg3d.get_source_field(grid, (0.0, 0.0, 0.0, 25, 10), freq)
@@ -94,8 +101,8 @@ def run(tier, replay=None):
     rep.canary(dev.violated == "BoundedCycles")
     if dev.violated != "BoundedCycles":
         raise C.MachineryError("TLC did not find the Stall deviation")
-    base = list(itertools.product("FVW", ["iso", "tri"], [1.0, -1.0],
-                                  [1, 2, 3]))
+    base = list(itertools.product("FVW", ["iso", "tri", "hti", "vti"],
+                                  [1.0, -1.0], [1, 2, 3]))
     if replay:
         with open(replay) as f:
             c = json.load(f)["case"]["cfg"]
@@ -103,7 +110,7 @@ def run(tier, replay=None):
         cfgs = [((16, 16, 16), *b), (tuple(c[0]), *b)]
     else:
         cfgs = [((n, n, n), *b) for b in base for n in (8, 16, 32)]
-        big = base if tier == "thorough" else rng.sample(base, 6)
+        big = base if tier == "thorough" else rng.sample(base, 8)
         cfgs += [((64, 64, 64), *b) for b in big]
         if tier == "thorough":
             for b in base:
